@@ -153,14 +153,16 @@ def _on_alarm(signum, frame):
     raise HangError()
 
 
-OP_TIME_LIMIT = 3.0      # seconds per operation; a pop of a few thousand samples takes milliseconds
+OP_TIME_LIMIT = 20.0     # CPU seconds (ITIMER_VIRTUAL) per operation; a pop of a few thousand samples takes milliseconds,
+                         # cancelling ten thousand trials about a second. CPU time, not wall time: a loaded machine must
+                         # not turn a slow operation into a HANG verdict (it did, once, in a thorough run under load 40)
 
 
 def guarded(fn, limit=None):
     """Run fn() under the per-operation watchdog. Returns 'ok', 'err HANG' or 'err <Class>'."""
     status = 'ok'
-    old_handler = signal.signal(signal.SIGALRM, _on_alarm)
-    signal.setitimer(signal.ITIMER_REAL, limit or OP_TIME_LIMIT)
+    old_handler = signal.signal(signal.SIGVTALRM, _on_alarm)
+    signal.setitimer(signal.ITIMER_VIRTUAL, limit or OP_TIME_LIMIT)
     try:
         fn()
     except HangError:
@@ -168,8 +170,8 @@ def guarded(fn, limit=None):
     except Exception as e:   # noqa: the class name is the observation
         status = f'err {type(e).__name__}'
     finally:
-        signal.setitimer(signal.ITIMER_REAL, 0)
-        signal.signal(signal.SIGALRM, old_handler)
+        signal.setitimer(signal.ITIMER_VIRTUAL, 0)
+        signal.signal(signal.SIGVTALRM, old_handler)
     return status
 
 
@@ -577,8 +579,8 @@ def _drive(case, q, tr, fs, t0, rewire=lambda q: None):
         c0 = int(round(q.get_ts() * fs))
         out = np.zeros(0)
         status = 'ok'
-        old_handler = signal.signal(signal.SIGALRM, _on_alarm)
-        signal.setitimer(signal.ITIMER_REAL, OP_TIME_LIMIT)
+        old_handler = signal.signal(signal.SIGVTALRM, _on_alarm)
+        signal.setitimer(signal.ITIMER_VIRTUAL, OP_TIME_LIMIT)
         try:
             if op[0] in ('pop', 'popnd'):
                 n = op[1]
@@ -614,8 +616,8 @@ def _drive(case, q, tr, fs, t0, rewire=lambda q: None):
         except Exception as e:   # noqa: the class name is the observation
             status = f'err {type(e).__name__}'
         finally:
-            signal.setitimer(signal.ITIMER_REAL, 0)
-            signal.signal(signal.SIGALRM, old_handler)
+            signal.setitimer(signal.ITIMER_VIRTUAL, 0)
+            signal.signal(signal.SIGVTALRM, old_handler)
         if status == 'err HANG':
             dead = True
             tr.lines.append(status)
